@@ -57,6 +57,17 @@ def gen_pipelines(rng, tier, npipes=None, big=False, pool=None, p_enc=0.4):
         if rng.chance(0.05):
             wspec['subclassed'] = True
 
+            if rng.chance(0.5):
+                wspec['indent_attr'] = rng.choice([0, 2, 8])
+
+                for o in ops:
+                    if o['op'] == 'write_preamble':
+                        o.setdefault('indent', rng.choice(
+                            [4, wspec['indent_attr']]))
+
+                        if rng.chance(0.5):
+                            o['indent'] = wspec['indent_attr']
+
         if rng.chance(0.08):
             # a second, unrelated writer alive and used alternately
             wspec['shadow'] = rng.below(50)
